@@ -524,15 +524,15 @@ func faultShards(prop string) func(tier string) []engine.Shard {
 	}
 }
 
-// largeFaultStreams: a literal block of 150 000 bytes followed by a match of 70 000 bytes and trailing literals,
+// largeFaultStreams: a literal block of 150 000 bytes followed by an overlapping match of 150 000 bytes (offset 5) and trailing literals,
 // and the same with the literals split over three blocks.
 func largeFaultStreams() []Stream {
 	lits := make([]byte, 150000)
 	for i := range lits {
 		lits[i] = 'a' + byte((i*i+i/7)%23)
 	}
-	a := []lz.Block{{Literals: lits}, {Sequences: []lz.Seq{{LitLen: 2, MatchLen: 70000, Offset: 5}}, Literals: []byte("xyz")}}
-	b := []lz.Block{{Literals: lits[:70000]}, {Literals: lits[70000:140000]}, {Sequences: []lz.Seq{{LitLen: 0, MatchLen: 66000, Offset: 3}}, Literals: lits[140000:]}}
+	a := []lz.Block{{Literals: lits}, {Sequences: []lz.Seq{{LitLen: 2, MatchLen: 150000, Offset: 5}}, Literals: []byte("xyz")}}
+	b := []lz.Block{{Literals: lits[:70000]}, {Literals: lits[70000:140000]}, {Sequences: []lz.Seq{{LitLen: 0, MatchLen: 160000, Offset: 3}}, Literals: lits[140000:]}}
 	var out []Stream
 	for i, blocks := range [][]lz.Block{a, b} {
 		if s, ok := finishStream(fmt.Sprintf("large synthetic stream %d", i), 8, blocks); ok {
